@@ -80,7 +80,10 @@ def h20(c, mode="sim", K=3, n_markets=2):
                 c.assume(t >= now)
                 now = t
                 ClockShim.now = now
-            bk = cm.book([cm.runner(1, status=res), cm.runner(2, status="LOSER" if res == "WINNER" else ("WINNER" if st == "CLOSED" else "ACTIVE"))],
+            other = "LOSER" if res == "WINNER" else ("WINNER" if st == "CLOSED" else "ACTIVE")
+            # (the same selection also appears on another handicap line that settles the other way: results go by selection AND handicap)
+            r2 = "ACTIVE" if st != "CLOSED" else "LOSER"
+            bk = cm.book([cm.runner(1, status=res), cm.runner(2, status=r2 if res != "LOSER" else "LOSER"), cm.runner(1, handicap=1.5, status=other)],
                          market_id=mid, status=st, version=10 + k, pt_ms=cm.T0_MS + 1000 * k,
                          md=cm.market_definition(market_type="WIN", each_way_divisor=None, status=st))
             sh = shadow[mid]
